@@ -1,13 +1,20 @@
 (* C06 -- rejection lemmas, part 2: the scanner layer and the bridge between the two layers.
    (1) bridge: whatever the text, a scanner ERROR is never swallowed by the parser, and an accepted text has a token stream
        with balanced flow brackets ([run_str] = scanner then parser);
-   (2) the two repaired classes (/repo c5ad60c, ad74b3e) as positive statements;
+   (2) the repaired classes (/repo c5ad60c, ad74b3e, 57aa316) as positive statements: empty explicit key; the implicit key
+       of a flow-sequence pair that spans lines or is longer than 1024 characters ([flow_pair_key_limit_rejected]);
    (3) scanner-layer rejection for ANY scanner state of a stated shape: tab as block indentation, content after a
        document-end marker, a line left of the block indentation inside a flow collection, a quoted scalar that is still
        open at the end of the input;
-   (4) parser layer: a mis-indented block entry / key (the token the scanner produces for it where a block collection
-       expects its next entry), a second root node after a scalar root at text level.
-   Nothing here depends on the shared scanner frameworks (ScanWP / ScanSafe / ScanPos / ScanRel). *)
+   (4) a mis-indented block entry / key (scanner half incl. the block nesting limit of /repo 99c201b, site 46; parser half),
+       a second root node after a scalar root at text level;
+   (5) the recorded witness texts; (6) composition with reachability; (7) a quoted implicit key spanning lines;
+   (8) text-level families behind a fixed first part;
+   (9) [dispatch] and a flow collection closed by the bracket of the other kind (/repo 88700d3, sites 47 / 48);
+   (10) block context: ':' separated from its value by tabs only (site 97; /repo b87c12b removed the test in flow context);
+   (11) text level: wrong closers and 256 nested block collections, whatever follows;
+   (12) composition one level down: a failing fetch in any round of the iterator's refill loop.
+   Nothing here depends on the shared scanner frameworks (ScanWP / ScanSafe / ScanPos / ScanRel); Proofs/RejectReach.v does. *)
 From Coq Require Import List NArith ZArith Bool Lia.
 Import ListNotations.
 Require Import Parser SBase SPrim SDir SScalar SFetch Pipe SInv Grammar C02base C02rest C02tail C02run DocReset RejectProofs.
@@ -172,31 +179,88 @@ Qed.
 
 Notation chars_of s := (si_chars (sc_in s)).
 
-Theorem multiline_flow_pair_key_rejected F (s : sc strin) k r top rest :
+Lemma bind_Ok' {I A B} (m : @M I A) (f : A -> @M I B) s a s' : m s = Ok (a, s') -> bind m f s = f a s'.
+Proof. intros H. unfold bind. rewrite H. reflexivity. Qed.
+
+(* the tab check behind ':' (site 97) only exists in block context (/repo b87c12b) *)
+Definition no_tab_behind_colon (s : sc strin) : Prop :=
+  sc_flow_level s <> 0%N \/ nth 0 (tl (chars_of s)) 0%N <> 9%N.
+
+(* [fetch_value] up to the insertion of the Key token, for a possible key candidate of a flow-sequence pair *)
+Theorem flow_pair_key_limit_rejected F (s : sc strin) k r top rest :
   sc_sks s = k :: r -> sk_possible k = true ->
   sc_ifms s = top :: rest -> (top = ImPossible \/ top = ImInside) ->
-  (m_line (sk_mark k) < m_line (sc_mark s))%N ->
-  nth 0 (tl (chars_of s)) 0%N <> 9%N ->
+  ((m_line (sk_mark k) < m_line (sc_mark s))%N \/ (m_index (sk_mark k) + SIMPLE_KEY_MAX < m_index (sc_mark s))%N) ->
+  no_tab_behind_colon s ->
   (sc_tokens_parsed s <= sk_token_number k)%N ->
   (N.to_nat (sk_token_number k - sc_tokens_parsed s) <= length (sc_tokens s))%nat ->
   fetch_value str_ops F s = Err 98 (sc_mark s).
 Proof.
   intros Hk Hp Hi Htop Hl Hc Htp Hpos. unfold fetch_value.
   unfold bind at 1. unfold get at 1. rewrite Hk. unfold bind at 1. unfold ret at 1.
-  rewrite Hi.
-  assert (Eifm : match top with ImPossible | ImInside => true | _ => false end = true)
+  rewrite Hi. cbv zeta.
+  assert (Eifm : (match top with ImPossible => true | _ => false end || match top with ImInside => true | _ => false end) = true)
     by (destruct Htop as [->| ->]; reflexivity).
-  replace (match top :: rest with ImPossible :: _ | ImInside :: _ => true | _ => false end) with true
-    by (destruct Htop as [->| ->]; reflexivity).
-  unfold bind at 1. unfold modify at 1.
-  unfold bind at 1. unfold skip_non_blank, in_skip, adv_mark, modify, bind at 1. cbn.
-  apply N.eqb_neq in Hc. unfold chr in *. rewrite Hc. cbn. rewrite Hp. cbn.
-  apply N.ltb_ge in Htp. rewrite Htp. cbn.
+  rewrite Eifm.
+  assert (E98 : (m_line (sk_mark k) <? m_line (sc_mark s))%N || (m_index (sk_mark k) + SIMPLE_KEY_MAX <? m_index (sc_mark s))%N = true).
+  { destruct Hl as [Hl|Hl]; apply N.ltb_lt in Hl; rewrite Hl; [reflexivity | apply orb_true_r]. }
+  rewrite E98. rewrite Hp.
+  apply N.ltb_ge in Htp.
   destruct (@insert_at_some token (span_empty (sk_mark k), TKey) _ _ Hpos) as [l' El].
-  unfold bind at 1. unfold insert_token at 1. cbn [sc_tokens set_in set_lws set_mark set_ifms set_struct set_flags upd]. rewrite El.
-  unfold bind at 1.
-  apply N.ltb_lt in Hl. rewrite Hl. reflexivity.
+  assert (Ec : forall s1 : sc strin, chars_of s1 = tl (chars_of s) ->
+            exists c s2, (if (sc_flow_level s =? 0)%N then look_ch str_ops else ret 0%N) s1 = Ok (c, s2)
+                         /\ (c =? 9)%N = false /\ sc_tokens s2 = sc_tokens s1 /\ sc_tokens_parsed s2 = sc_tokens_parsed s1).
+  { intros s1 H1. destruct (N.eqb_spec (sc_flow_level s) 0) as [E0|E0].
+    - destruct Hc as [Hc|Hc]; [contradiction|].
+      eexists _, _. split; [reflexivity|]. cbn [sc_in set_in upd si_chars sc_tokens sc_tokens_parsed]. rewrite H1.
+      split; [apply N.eqb_neq; exact Hc | split; reflexivity].
+    - eexists _, _. split; [reflexivity|]. repeat split. }
+  destruct Htop as [->| ->].
+  - unfold bind at 1. unfold modify at 1.
+    unfold bind at 1. unfold skip_non_blank at 1, bind at 1, in_skip at 1, modify at 1.
+    unfold bind at 1, adv_mark at 1, modify at 1. unfold modify at 1.
+    match goal with |- bind _ _ ?st = _ => destruct (Ec st eq_refl) as (c & s2 & E2 & C9 & T2 & P2) end.
+    rewrite (bind_Ok' _ _ _ _ _ E2). rewrite C9.
+    unfold bind at 1, ret at 1. unfold bind at 1, get at 1.
+    rewrite P2. cbn [sc_tokens_parsed set_lws set_flags set_mark set_in upd set_ifms set_struct]. rewrite Htp.
+    unfold bind at 1, ret at 1.
+    unfold bind at 1. unfold insert_token at 1. rewrite T2.
+    cbn [sc_tokens set_lws set_flags set_mark set_in upd set_ifms set_struct]. rewrite El.
+    reflexivity.
+  - unfold bind at 1. unfold ret at 1.
+    unfold bind at 1. unfold skip_non_blank at 1, bind at 1, in_skip at 1, modify at 1.
+    unfold bind at 1, adv_mark at 1, modify at 1. unfold modify at 1.
+    match goal with |- bind _ _ ?st = _ => destruct (Ec st eq_refl) as (c & s2 & E2 & C9 & T2 & P2) end.
+    rewrite (bind_Ok' _ _ _ _ _ E2). rewrite C9.
+    unfold bind at 1, ret at 1. unfold bind at 1, get at 1.
+    rewrite P2. cbn [sc_tokens_parsed set_lws set_flags set_mark set_in upd set_ifms set_struct]. rewrite Htp.
+    unfold bind at 1, ret at 1.
+    unfold bind at 1. unfold insert_token at 1. rewrite T2.
+    cbn [sc_tokens set_lws set_flags set_mark set_in upd set_ifms set_struct]. rewrite El.
+    reflexivity.
 Qed.
+
+(* the two instances: the key candidate began on an earlier line (/repo ad74b3e made the test per flow level) ... *)
+Theorem multiline_flow_pair_key_rejected F (s : sc strin) k r top rest :
+  sc_sks s = k :: r -> sk_possible k = true ->
+  sc_ifms s = top :: rest -> (top = ImPossible \/ top = ImInside) ->
+  (m_line (sk_mark k) < m_line (sc_mark s))%N ->
+  no_tab_behind_colon s ->
+  (sc_tokens_parsed s <= sk_token_number k)%N ->
+  (N.to_nat (sk_token_number k - sc_tokens_parsed s) <= length (sc_tokens s))%nat ->
+  fetch_value str_ops F s = Err 98 (sc_mark s).
+Proof. intros Hk Hp Hi Htop Hl. apply (flow_pair_key_limit_rejected F s k r top rest Hk Hp Hi Htop). left; exact Hl. Qed.
+
+(* ... or more than 1024 characters before the ':' (/repo 57aa316; before, "[ kkk...(1025): v ]" was accepted) *)
+Theorem long_flow_pair_key_rejected F (s : sc strin) k r top rest :
+  sc_sks s = k :: r -> sk_possible k = true ->
+  sc_ifms s = top :: rest -> (top = ImPossible \/ top = ImInside) ->
+  (m_index (sk_mark k) + 1024 < m_index (sc_mark s))%N ->
+  no_tab_behind_colon s ->
+  (sc_tokens_parsed s <= sk_token_number k)%N ->
+  (N.to_nat (sk_token_number k - sc_tokens_parsed s) <= length (sc_tokens s))%nat ->
+  fetch_value str_ops F s = Err 98 (sc_mark s).
+Proof. intros Hk Hp Hi Htop Hl. apply (flow_pair_key_limit_rejected F s k r top rest Hk Hp Hi Htop). right; exact Hl. Qed.
 
 (* ================================================================================================ *)
 (* (3) scanner layer, for any scanner state of the stated shape                                       *)
@@ -473,12 +537,13 @@ Qed.
 (* ---- unrolling the indentation stack never fails on a well-formed stack (SInv.inv2: strictly increasing, bottom -1);
         it only touches the token queue and the indentation stack ---- *)
 Definition same_but_block (t t' : sc strin) : Prop :=
-  sc_in t' = sc_in t /\ sc_mark t' = sc_mark t /\ sc_sks t' = sc_sks t /\ sc_flow_level t' = sc_flow_level t.
+  sc_in t' = sc_in t /\ sc_mark t' = sc_mark t /\ sc_sks t' = sc_sks t /\ sc_flow_level t' = sc_flow_level t
+  /\ sc_ifms t' = sc_ifms t.
 
 Lemma same_but_block_refl t : same_but_block t t.
 Proof. repeat split. Qed.
 Lemma same_but_block_trans a b c : same_but_block a b -> same_but_block b c -> same_but_block a c.
-Proof. intros (A1 & A2 & A3 & A4) (B1 & B2 & B3 & B4). repeat split; congruence. Qed.
+Proof. intros (A1 & A2 & A3 & A4 & A5) (B1 & B2 & B3 & B4 & B5). repeat split; congruence. Qed.
 
 Lemma sorted_from_bottom l : forall top, sorted_from top l = true -> (-1 <= top)%Z.
 Proof.
@@ -1126,16 +1191,56 @@ Close Scope N_scope.
 Theorem roll_indent_deeper_starts_collection (s : sc strin) col tk mk :
   sc_flow_level s = 0%N -> (sc_indent s < Z.of_N col)%Z ->
   (forall i r, sc_indents s = i :: r -> in_needs_block_end i = true) ->
+  (N.of_nat (length (sc_indents s)) < BLOCK_NESTING_MAX)%N ->
   roll_indent col None tk mk s
   = Ok (tt, set_tokens (sc_tokens s ++ [(span_empty mk, tk)])
               (set_indent (Z.of_N col) ({| in_indent := sc_indent s; in_needs_block_end := true |} :: sc_indents s) s)).
 Proof.
-  intros HF HL HI. unfold roll_indent. unfold bind at 1, get at 1. rewrite HF. cbn [N.ltb N.compare].
+  intros HF HL HI HN. unfold roll_indent. unfold bind at 1, get at 1. rewrite HF. cbn [N.ltb N.compare].
   assert (E1 : (sc_indent s <=? Z.of_N col)%Z = true) by (apply Z.leb_le; lia). rewrite E1.
   assert (E2 : (sc_indent s <? Z.of_N col)%Z = true) by (apply Z.ltb_lt; lia).
+  apply N.leb_gt in HN.
   destruct (sc_indents s) as [|i r] eqn:EI.
-  - rewrite E2. reflexivity.
-  - rewrite (HI i r eq_refl). cbn [negb]. rewrite E2. reflexivity.
+  - rewrite E2, HN. reflexivity.
+  - rewrite (HI i r eq_refl). cbn [negb]. rewrite E2, HN. reflexivity.
+Qed.
+
+(* /repo 99c201b: ... unless BLOCK_NESTING_MAX (= 255) block collections are open already: then the new collection is the
+   scan error "recursion limit exceeded" (site 46) at the current mark.  [effective_indents]: roll_indent first drops a
+   one-column indent (pushed behind ':' / '-' in front of a line break or a flow collection) that the new column reaches *)
+Definition effective_indents (s : sc strin) (col : N) : Z * list indent_rec :=
+  if (sc_indent s <=? Z.of_N col)%Z then
+    match sc_indents s with
+    | i :: r => if negb (in_needs_block_end i) then (in_indent i, r) else (sc_indent s, sc_indents s)
+    | [] => (sc_indent s, sc_indents s)
+    end
+  else (sc_indent s, sc_indents s).
+
+Theorem block_nesting_limit_rejected (s : sc strin) col number tk mk :
+  sc_flow_level s = 0%N ->
+  (fst (effective_indents s col) < Z.of_N col)%Z ->
+  (BLOCK_NESTING_MAX <= N.of_nat (length (snd (effective_indents s col))))%N ->
+  roll_indent col number tk mk s = Err 46 (sc_mark s).
+Proof.
+  intros HF HL HN. unfold roll_indent. unfold bind at 1, get at 1. rewrite HF. cbn [N.ltb N.compare].
+  fold (effective_indents s col).
+  destruct (effective_indents s col) as [ind inds]. cbn [fst snd] in HL, HN.
+  apply Z.ltb_lt in HL. apply N.leb_le in HN. rewrite HL, HN. reflexivity.
+Qed.
+
+(* the plain case: every open indentation level is a block collection and 255 (or more) of them are open *)
+Corollary block_nesting_limit_plain_rejected (s : sc strin) col number tk mk :
+  sc_flow_level s = 0%N -> (sc_indent s < Z.of_N col)%Z ->
+  (forall i r, sc_indents s = i :: r -> in_needs_block_end i = true) ->
+  (255 <= length (sc_indents s))%nat ->
+  roll_indent col number tk mk s = Err 46 (sc_mark s).
+Proof.
+  intros HF HL HI HN.
+  assert (E : effective_indents s col = (sc_indent s, sc_indents s)).
+  { unfold effective_indents. destruct (sc_indent s <=? Z.of_N col)%Z; [|reflexivity].
+    destruct (sc_indents s) as [|i r] eqn:EI; [reflexivity|]. rewrite (HI i r eq_refl). reflexivity. }
+  apply block_nesting_limit_rejected; [exact HF | rewrite E; exact HL | rewrite E; cbn [snd]].
+  change BLOCK_NESTING_MAX with 255%N. lia.
 Qed.
 
 (* parser half: where a block mapping expects its next key (or its end) anything else -- in particular the
@@ -1192,7 +1297,7 @@ Proof.
 Qed.
 
 (* ================================================================================================ *)
-(* (5) the recorded texts: two repaired (now rejected), two still accepted                            *)
+(* (5) the recorded texts: three repaired (now rejected), one still accepted                          *)
 (* ================================================================================================ *)
 Open Scope N_scope.
 Definition stray_closer_text : list N := [91;32;63;32;93;32;93].                               (* [ ? ] ]            *)
@@ -1202,6 +1307,8 @@ Definition multiline_flow_pair_key_text : list N :=                             
 Definition multiline_flow_pair_key_other_document_text : list N :=                              (* {} NL --- NL [ a NL b: v ] *)
   [123;125;10;45;45;45;10;91;32;97;10;32;98;58;32;118;32;93;10].
 Definition long_flow_pair_key_text : list N := [91;32] ++ repeat 107 1025 ++ [58;32;118;32;93;10].  (* [ k^1025: v ]  *)
+Definition longest_flow_pair_key_text : list N := [91;32] ++ repeat 107 1024 ++ [58;32;118;32;93;10]. (* [ k^1024: v ] *)
+Definition long_flow_mapping_key_text : list N := [123;32] ++ repeat 107 1025 ++ [58;32;118;32;125;10]. (* { k^1025: v } *)
 Definition flow_continuation_text : list N := [107;58;32;91;97;44;10;39;98;39;93;10].         (* k: [a,  NL 'b']   *)
 
 (* repaired by /repo c5ad60c: the implementation now reports "did not find expected <document start>" at 6:1:6 *)
@@ -1221,13 +1328,21 @@ Lemma multiline_flow_pair_key_other_document_rejected :
   snd (run_str multiline_flow_pair_key_other_document_text) = PScanErr 98 {| m_index := 13; m_line := 4; m_col := 2 |}.
 Proof. vm_compute. reflexivity. Qed.
 
-(* still accepted (known findings) *)
-Lemma long_flow_pair_key_accepted : snd (run_str long_flow_pair_key_text) = PDone.
+(* repaired by /repo 57aa316: "illegal placement of ':' indicator" at the ':' behind a 1025-character key of a flow-sequence
+   pair; a key of exactly 1024 characters and a 1025-character key of a flow MAPPING stay accepted *)
+Lemma long_flow_pair_key_text_rejected :
+  snd (run_str long_flow_pair_key_text) = PScanErr 98 {| m_index := 1027; m_line := 1; m_col := 1027 |}.
 Proof. vm_compute. reflexivity. Qed.
+Lemma longest_flow_pair_key_accepted : snd (run_str longest_flow_pair_key_text) = PDone.
+Proof. vm_compute. reflexivity. Qed.
+Lemma long_flow_mapping_key_accepted : snd (run_str long_flow_mapping_key_text) = PDone.
+Proof. vm_compute. reflexivity. Qed.
+
+(* still accepted (known finding) *)
 Lemma flow_continuation_at_block_indentation_accepted : snd (run_str flow_continuation_text) = PDone.
 Proof. vm_compute. reflexivity. Qed.
 
-Lemma long_flow_pair_key_is_damaged : damaged_known long_flow_pair_key_text.
+Lemma long_flow_pair_key_is_damaged : damaged_long_key long_flow_pair_key_text.
 Proof. exact long_flow_pair_key_damaged. Qed.
 Lemma flow_continuation_is_damaged : damaged_known flow_continuation_text.
 Proof.
@@ -1237,13 +1352,9 @@ Qed.
 
 Definition C06_full_for (ill_formed : list N -> Prop) : Prop := forall s, ill_formed s -> snd (run_str s) <> PDone.
 
-Lemma C06_full_for_refuted_by_known ill_formed :
-  ill_formed long_flow_pair_key_text \/ ill_formed flow_continuation_text -> ~ C06_full_for ill_formed.
-Proof.
-  intros H HF. destruct H as [H|H]; apply (HF _ H).
-  - exact long_flow_pair_key_accepted.
-  - exact flow_continuation_at_block_indentation_accepted.
-Qed.
+Lemma C06_full_for_refuted_by_known (ill_formed : list N -> Prop) :
+  ill_formed flow_continuation_text -> ~ C06_full_for ill_formed.
+Proof. intros H HF. apply (HF _ H). exact flow_continuation_at_block_indentation_accepted. Qed.
 
 (* what IS proved of the full statement, for every text: the partial form *)
 Definition C06_full_partial_statement : Prop :=
@@ -1532,4 +1643,433 @@ Proof.
     - rewrite HF. lia. }
   destruct EF as (e & m & EF).
   apply (reachable_fetch_error_rejected l 2 s2 e m R); try assumption. lia.
+Qed.
+
+(* ================================================================================================ *)
+(* (9) a flow collection closed by the bracket of the other kind (/repo 88700d3)                       *)
+(* ================================================================================================ *)
+(* everything [fetch_next_token] does once it knows that the token is no directive / document marker / end of stream *)
+Definition dispatch (F : nat) (s : sc strin) : @M strin unit :=
+  if (Z.of_N (m_col (sc_mark s)) <? sc_indent s)%Z then fail 102 (sc_mark s) else
+  c <- peek str_ops ;; nc <- peekn str_ops 1 ;;
+  let fl := 0 <? sc_flow_level s in
+  let bz := is_blank_or_breakz nc in
+  if c =? 91 then fetch_flow_collection_start str_ops F true
+  else if c =? 123 then fetch_flow_collection_start str_ops F false
+  else if c =? 93 then fetch_flow_collection_end str_ops F true
+  else if c =? 125 then fetch_flow_collection_end str_ops F false
+  else if c =? 44 then fetch_flow_entry str_ops F
+  else if (c =? 45) && bz then fetch_block_entry str_ops F
+  else if (c =? 63) && bz then fetch_key str_ops F
+  else if (c =? 58) && bz then fetch_value str_ops F
+  else if (c =? 58) && fl && (is_flow nc || (m_index (sc_mark s) =? sc_adjacent s)) then fetch_flow_value str_ops F
+  else if c =? 42 then fetch_anchor str_ops F true
+  else if c =? 38 then fetch_anchor str_ops F false
+  else if c =? 33 then fetch_tag str_ops F
+  else if (c =? 124) && negb fl then fetch_block_scalar str_ops F true
+  else if (c =? 62) && negb fl then fetch_block_scalar str_ops F false
+  else if c =? 39 then fetch_flow_scalar str_ops F true
+  else if c =? 34 then fetch_flow_scalar str_ops F false
+  else if (c =? 45) && negb bz then fetch_plain_scalar str_ops F
+  else if ((c =? 58) || (c =? 63)) && negb bz && negb fl then fetch_plain_scalar str_ops F
+  else if (c =? 37) || (c =? 64) || (c =? 96) then fail 103 (sc_mark s)
+  else fetch_plain_scalar str_ops F.
+
+(* a character that starts neither a directive nor (possibly) a document marker where the scanner stands *)
+Definition no_marker_start (s : sc strin) (c : N) : Prop :=
+  c <> 0 /\ (m_col (sc_mark s) <> 0 \/ (c <> 37 /\ c <> 45 /\ c <> 46)).
+
+(* ANY state with a well-formed indentation stack and no required stale key, standing on such a character: what is left of
+   [fetch_next_token] behind skip_to_next_token is [dispatch], in a state that differs only by invalidated key candidates,
+   closed block collections (block context only) and the lookahead counter *)
+Lemma fetch_rest_dispatch F (s1 : sc strin) :
+  sorted_from (sc_indent s1) (sc_indents s1) = true ->
+  (sc_flow_level s1 <> 0 \/ forall k, In k (sc_sks s1) -> sk_required k = false) ->
+  no_marker_start s1 (nth 0 (chars_of s1) 0) ->
+  exists s4, fetch_rest F s1 = dispatch F s4 s4
+             /\ chars_of s4 = chars_of s1 /\ (4 <= si_look (sc_in s4))%nat /\ sc_mark s4 = sc_mark s1
+             /\ sc_flow_level s4 = sc_flow_level s1 /\ sc_ifms s4 = sc_ifms s1
+             /\ Forall2 (fun k k' => k' = k \/ k' = invalidate k) (sc_sks s1) (sc_sks s4)
+             /\ sorted_from (sc_indent s4) (sc_indents s4) = true
+             /\ (sc_flow_level s1 <> 0 -> sc_indent s4 = sc_indent s1 /\ sc_indents s4 = sc_indents s1 /\ sc_tokens s4 = sc_tokens s1).
+Proof.
+  intros HS HR (HZ & HD). unfold fetch_rest.
+  destruct (stale_simple_keys_ok s1 HR) as (sks' & E & HF2).
+  rewrite (bind_Ok _ _ _ _ _ E).
+  set (s2 := set_sks sks' s1).
+  unfold bind at 1. unfold mark at 1, gets at 1.
+  assert (HS2 : sorted_from (sc_indent s2) (sc_indents s2) = true) by exact HS.
+  destruct (unroll_indent_ok (Z.of_N (m_col (sc_mark s2))) s2 ltac:(lia) HS2) as (s3 & E3 & (A1 & A2 & A3 & A4 & A5) & HS3).
+  rewrite (bind_Ok _ _ _ _ _ E3).
+  assert (FL3 : sc_flow_level s1 <> 0 -> s3 = s2).
+  { intros HFL. unfold unroll_indent, bind, get in E3. change (sc_flow_level s2) with (sc_flow_level s1) in E3.
+    assert (HFL' : (0 <? sc_flow_level s1) = true) by (apply N.ltb_lt; lia). rewrite HFL' in E3. inversion E3. reflexivity. }
+  unfold bind at 1. unfold look at 1. cbn [lookahead str_ops].
+  set (s4 := set_in {| si_chars := chars_of s3; si_look := Nat.max (si_look (sc_in s3)) 4 |} s3).
+  assert (HC4 : chars_of s4 = chars_of s1) by (unfold s4; cbn [sc_in set_in upd si_chars]; rewrite A1; reflexivity).
+  assert (HM4 : sc_mark s4 = sc_mark s1) by (unfold s4; cbn [sc_mark set_in upd]; rewrite A2; reflexivity).
+  unfold bind at 1. unfold next_is at 1, bind at 1, peek at 1, peekn at 1. cbn [peek_nth str_ops]. rewrite HC4.
+  unfold ret at 1. unfold is_z. apply N.eqb_neq in HZ. unfold chr in *. rewrite HZ.
+  unfold bind at 1. unfold get at 1.
+  unfold bind at 1. unfold peek at 1, peekn at 1. cbn [peek_nth str_ops]. rewrite HC4.
+  assert (EC4 : (m_col (sc_mark s4) =? 0) = (m_col (sc_mark s1) =? 0)) by (rewrite HM4; reflexivity).
+  rewrite !EC4.
+  assert (LB4 : Nat.ltb (buflen str_ops (sc_in s4)) 4 = false) by (apply Nat.ltb_ge; cbn; lia).
+  assert (LB3 : Nat.ltb (buflen str_ops (sc_in s4)) 3 = false) by (apply Nat.ltb_ge; cbn; lia).
+  assert (FIN : dispatch F s4 s4 = dispatch F s4 s4 ->
+                exists s4', dispatch F s4 s4 = dispatch F s4' s4'
+             /\ chars_of s4' = chars_of s1 /\ (4 <= si_look (sc_in s4'))%nat /\ sc_mark s4' = sc_mark s1
+             /\ sc_flow_level s4' = sc_flow_level s1 /\ sc_ifms s4' = sc_ifms s1
+             /\ Forall2 (fun k k' => k' = k \/ k' = invalidate k) (sc_sks s1) (sc_sks s4')
+             /\ sorted_from (sc_indent s4') (sc_indents s4') = true
+             /\ (sc_flow_level s1 <> 0 -> sc_indent s4' = sc_indent s1 /\ sc_indents s4' = sc_indents s1 /\ sc_tokens s4' = sc_tokens s1)).
+  { intros _. exists s4. split; [reflexivity|]. split; [exact HC4|]. split; [cbn; lia|]. split; [exact HM4|].
+    split; [unfold s4; cbn [sc_flow_level set_in upd]; rewrite A4; reflexivity|].
+    split; [unfold s4; cbn [sc_ifms set_in upd]; rewrite A5; reflexivity|].
+    split; [unfold s4; cbn [sc_sks set_in upd]; rewrite A3; exact HF2|].
+    split; [exact HS3|].
+    intros HFL. unfold s4. rewrite (FL3 HFL). repeat split. }
+  destruct HD as [HD|(D1 & D2 & D3)].
+  - apply N.eqb_neq in HD. rewrite HD. cbn [andb]. unfold bind at 1, ret at 1. unfold bind at 1, ret at 1.
+    exact (FIN eq_refl).
+  - apply N.eqb_neq in D1, D2, D3. unfold chr in *. rewrite D1. cbn [negb andb].
+    destruct (m_col (sc_mark s1) =? 0) eqn:EC.
+    + cbn [andb].
+      assert (DS : next_is_document_start str_ops s4 = Ok (false, s4)).
+      { unfold next_is_document_start, bind at 1, assert_buflen at 1. rewrite LB4.
+        unfold bind at 1. unfold next_3_are at 1, bind at 1, assert_buflen at 1. rewrite LB3.
+        unfold bind, peek, peekn. cbn [peek_nth str_ops]. rewrite HC4. unfold ret. unfold chr in *. rewrite D2. reflexivity. }
+      assert (DE : next_is_document_end str_ops s4 = Ok (false, s4)).
+      { unfold next_is_document_end, bind at 1, assert_buflen at 1. rewrite LB4.
+        unfold bind at 1. unfold next_3_are at 1, bind at 1, assert_buflen at 1. rewrite LB3.
+        unfold bind, peek, peekn. cbn [peek_nth str_ops]. rewrite HC4. unfold ret. unfold chr in *. rewrite D3. reflexivity. }
+      rewrite (bind_Ok _ _ _ _ _ DS). cbn [negb]. rewrite (bind_Ok _ _ _ _ _ DE). cbn iota.
+      exact (FIN eq_refl).
+    + cbn [andb]. unfold bind at 1, ret at 1. unfold bind at 1, ret at 1.
+      exact (FIN eq_refl).
+Qed.
+
+(* the same from [fetch_next_token], for a started state standing on a token character *)
+Lemma fetch_next_token_dispatch F (s : sc strin) :
+  sc_stream_start s = true -> (0 < F)%nat ->
+  not_skipped (nth 0 (chars_of s) 0) -> no_marker_start s (nth 0 (chars_of s) 0) ->
+  sorted_from (sc_indent s) (sc_indents s) = true ->
+  (sc_flow_level s <> 0 \/ forall k, In k (sc_sks s) -> sk_required k = false) ->
+  exists s4, fetch_next_token str_ops F s = dispatch F s4 s4
+             /\ chars_of s4 = chars_of s /\ (4 <= si_look (sc_in s4))%nat /\ sc_mark s4 = sc_mark s
+             /\ sc_flow_level s4 = sc_flow_level s /\ sc_ifms s4 = sc_ifms s
+             /\ Forall2 (fun k k' => k' = k \/ k' = invalidate k) (sc_sks s) (sc_sks s4)
+             /\ sorted_from (sc_indent s4) (sc_indents s4) = true
+             /\ (sc_flow_level s <> 0 -> sc_indent s4 = sc_indent s /\ sc_indents s4 = sc_indents s /\ sc_tokens s4 = sc_tokens s).
+Proof.
+  intros HSS HF HN HM HS HR.
+  rewrite (fetch_next_token_started F s HSS).
+  rewrite (bind_Ok _ _ _ _ _ (skip_to_next_token_stop F (looked s 1) HF HN)).
+  exact (fetch_rest_dispatch F (looked (looked s 1) 1) HS HR HM).
+Qed.
+
+Definition is_mapping_level (st : ims) : bool := match st with ImMapping => true | _ => false end.
+
+(* the check itself: with at least one flow level open, the closer must be of the kind of the innermost level *)
+Theorem check_flow_closer_spec (s : sc strin) seq top rest :
+  sc_ifms s = top :: rest ->
+  check_flow_closer seq s
+  = if Bool.eqb (is_mapping_level top) (negb seq) then Ok (tt, s)
+    else Err (if is_mapping_level top then 47 else 48) (sc_mark s).
+Proof.
+  intros Hi. unfold check_flow_closer, bind, get. rewrite Hi. unfold is_mapping_level.
+  destruct top, seq; reflexivity.
+Qed.
+
+(* ANY scanner state with a flow level open: ']' where the innermost open flow collection is a mapping is error site 47
+   ("while parsing a flow mapping, did not find expected ',' or '}'"), '}' where it is a sequence (whatever the state of its
+   implicit single-pair mapping: Possible / Inside / InsideExplicitKey) is error site 48 ("while parsing a flow sequence,
+   expected ',' or ']'"), both at the closer, before anything else happens *)
+Theorem mismatched_flow_closer_rejected F (s : sc strin) (seq : bool) top rest :
+  sc_ifms s = top :: rest -> is_mapping_level top = seq ->
+  fetch_flow_collection_end str_ops F seq s = Err (if seq then 47 else 48) (sc_mark s).
+Proof.
+  intros Hi Hm. unfold fetch_flow_collection_end. apply bind_Err.
+  rewrite (check_flow_closer_spec s seq top rest Hi). rewrite Hm.
+  destruct seq; reflexivity.
+Qed.
+
+(* the same from [fetch_next_token]: ANY started state in flow context that stands on the closer, not left of the block
+   indentation (that is site 102), with a well-formed indentation stack *)
+Theorem mismatched_flow_closer_fetch_rejected F (s : sc strin) (seq : bool) top rest :
+  sc_stream_start s = true -> (0 < F)%nat ->
+  nth 0 (chars_of s) 0 = (if seq then 93 else 125) ->
+  sc_ifms s = top :: rest -> is_mapping_level top = seq ->
+  sc_flow_level s <> 0 ->
+  sorted_from (sc_indent s) (sc_indents s) = true ->
+  (sc_indent s <= Z.of_N (m_col (sc_mark s)))%Z ->
+  fetch_next_token str_ops F s = Err (if seq then 47 else 48) (sc_mark s).
+Proof.
+  intros HSS HF HC Hi Hm HFL HS HCol.
+  assert (HN : not_skipped (nth 0 (chars_of s) 0)) by (rewrite HC; destruct seq; repeat split; discriminate).
+  assert (HM : no_marker_start s (nth 0 (chars_of s) 0)).
+  { rewrite HC. split; [destruct seq; discriminate|]. right. destruct seq; repeat split; discriminate. }
+  destruct (fetch_next_token_dispatch F s HSS HF HN HM HS (or_introl HFL))
+    as (s4 & E & C4 & _ & M4 & _ & I4 & _ & _ & B4).
+  destruct (B4 HFL) as (B1 & _ & _).
+  rewrite E. unfold dispatch. rewrite M4, B1.
+  assert (EL : (Z.of_N (m_col (sc_mark s)) <? sc_indent s)%Z = false) by (apply Z.ltb_ge; exact HCol).
+  rewrite EL.
+  unfold bind at 1, peek at 1, peekn at 1. cbn [peek_nth str_ops]. rewrite C4, HC.
+  unfold bind at 1, peekn at 1. cbn [peek_nth str_ops]. cbv zeta.
+  rewrite <- M4.
+  destruct seq.
+  - change (93 =? 91) with false. change (93 =? 123) with false. change (93 =? 93) with true. cbn iota.
+    apply (mismatched_flow_closer_rejected F s4 true top rest); [rewrite I4; exact Hi | exact Hm].
+  - change (125 =? 91) with false. change (125 =? 123) with false. change (125 =? 93) with false.
+    change (125 =? 125) with true. cbn iota.
+    apply (mismatched_flow_closer_rejected F s4 false top rest); [rewrite I4; exact Hi | exact Hm].
+Qed.
+
+(* ================================================================================================ *)
+(* (10) block context: ':' separated from the value by tabs only (the implementation's rule, site 97)  *)
+(* ================================================================================================ *)
+Lemma in_skip_ws_tabs ts : forall fuel tab wsf n (s : sc strin) c rest,
+  chars_of s = ts ++ c :: rest -> Forall (fun x => x = 9) ts -> stops_ws SkipYes c -> (length ts < fuel)%nat ->
+  exists lk, in_skip_ws_to_eol str_ops fuel SkipYes tab wsf n s
+             = Ok ((n + N.of_nat (length ts), Some (match ts with [] => tab | _ => true end, wsf)), with_chars s (c :: rest) lk).
+Proof.
+  induction ts as [|w ts IH]; intros fuel tab wsf n s c rest HC HB (Hc1 & Hc2 & Hc3) HL.
+  - destruct fuel as [|fuel]; [cbn in HL; lia|]. cbn [app] in HC.
+    cbn [in_skip_ws_to_eol]. unfold look_ch, look, peek, peekn, bind. cbn. rewrite HC. cbn.
+    apply N.eqb_neq in Hc1, Hc3. rewrite Hc1, Hc3.
+    assert (E9 : (c =? 9) = false).
+    { destruct (N.eqb_spec c 9) as [E|E]; [specialize (Hc2 E); discriminate | reflexivity]. }
+    rewrite E9. cbn [andb]. unfold ret, with_chars. eexists. rewrite N.add_0_r. reflexivity.
+  - destruct fuel as [|fuel]; [cbn in HL; lia|]. cbn [app] in HC.
+    inversion HB as [|x y Hw HB']; subst.
+    cbn [length]. rewrite Nat2N.inj_succ.
+    set (s1 := set_in {| si_chars := ts ++ c :: rest; si_look := Nat.max (si_look (sc_in s)) 1 |} s).
+    assert (HC1 : chars_of s1 = ts ++ c :: rest) by reflexivity.
+    assert (HL1 : (length ts < fuel)%nat) by (cbn in HL; lia).
+    cbn [in_skip_ws_to_eol]. unfold look_ch, look, peek, peekn, bind at 1. cbn -[N.of_nat]. rewrite HC. cbn -[N.of_nat].
+    change (9 =? 32) with false. change (9 =? 9) with true. cbn beta iota.
+    destruct (IH fuel true wsf (n + 1) s1 c rest HC1 HB' (conj Hc1 (conj Hc2 Hc3)) HL1) as (lk & E).
+    unfold bind, in_skip, modify. cbn -[N.of_nat].
+    exists lk. refine (eq_trans _ (eq_trans E _)); [reflexivity|].
+    unfold with_chars, s1. f_equal. f_equal. f_equal; [lia|]. destruct ts; reflexivity.
+Qed.
+
+Lemma skip_ws_to_eol_tabs ts fuel (s : sc strin) c rest :
+  chars_of s = ts ++ c :: rest -> Forall (fun x => x = 9) ts -> stops_ws SkipYes c -> (length ts < fuel)%nat ->
+  exists lk, skip_ws_to_eol str_ops fuel SkipYes s
+             = Ok ((match ts with [] => false | _ => true end, false),
+                   set_mark (adv (N.of_nat (length ts)) (sc_mark s)) (with_chars s (c :: rest) lk)).
+Proof.
+  intros HC HB HS HL.
+  destruct (in_skip_ws_tabs ts fuel false false 0 s c rest HC HB HS HL) as (lk & E).
+  unfold skip_ws_to_eol. rewrite (bind_Ok _ _ _ _ _ E). cbn [fst snd]. rewrite N.add_0_l.
+  exists lk. reflexivity.
+Qed.
+
+(* ANY state in block context at a ':' that is followed by one or more tabs (and no space) and then by '-' or a word
+   character: site 97 ("':' must be followed by a valid YAML whitespace") at that character.  Still so after /repo b87c12b,
+   which removed the test in FLOW context only. *)
+Theorem tab_after_colon_in_block_rejected F (s : sc strin) k r ts c rest :
+  sc_sks s = k :: r -> sc_flow_level s = 0 ->
+  chars_of s = 58 :: 9 :: ts ++ c :: rest -> Forall (fun x => x = 9) ts ->
+  (c = 45 \/ is_alpha c = true) -> c <> 32 -> c <> 9 -> c <> 35 ->
+  (S (length ts) < F)%nat ->
+  fetch_value str_ops F s = Err 97 (adv (N.of_nat (S (length ts))) (adv 1 (sc_mark s))).
+Proof.
+  intros Hk HFL HC HT Hc C32 C9 C35 HF. unfold fetch_value.
+  unfold bind at 1. unfold get at 1. rewrite Hk. unfold bind at 1. unfold ret at 1. cbv zeta.
+  rewrite HFL. change (0 =? 0) with true. cbv iota.
+  assert (PRE : forall s0 : sc strin, chars_of s0 = chars_of s -> sc_mark s0 = sc_mark s ->
+            forall (K : @M strin unit),
+            (skip_non_blank str_ops ;;; c <- look_ch str_ops ;;
+             (if c =? 9 then
+                tw <- skip_ws_to_eol str_ops F SkipYes ;;
+                if negb (snd tw) then
+                  c <- peek str_ops ;;
+                  if (c =? 45) || is_alpha c then m <- mark ;; fail 97 m else ret tt
+                else ret tt
+              else ret tt) ;;; K) s0 = Err 97 (adv (N.of_nat (S (length ts))) (adv 1 (sc_mark s)))).
+  { intros s0 H0 M0 K.
+    unfold bind at 1. unfold skip_non_blank at 1, bind at 1, in_skip at 1, modify at 1.
+    unfold bind at 1, adv_mark at 1, modify at 1. unfold modify at 1.
+    unfold bind at 1. unfold look_ch at 1, bind at 1, look at 1. cbn [lookahead str_ops].
+    unfold peek at 1, peekn at 1. cbn [peek_nth str_ops sc_in set_lws set_flags set_mark set_in upd si_chars skip1].
+    rewrite H0, HC. cbn [tl nth]. change (9 =? 9) with true. cbv iota.
+    apply bind_Err.
+    match goal with |- bind (skip_ws_to_eol str_ops F SkipYes) _ ?st = _ => set (s1 := st) end.
+    assert (HC1 : chars_of s1 = (9 :: ts) ++ c :: rest) by reflexivity.
+    assert (HT1 : Forall (fun x => x = 9) (9 :: ts)) by (constructor; [reflexivity | exact HT]).
+    assert (HS1 : stops_ws SkipYes c) by (repeat split; [exact C32 | intros E; contradiction | exact C35]).
+    destruct (skip_ws_to_eol_tabs (9 :: ts) F s1 c rest HC1 HT1 HS1 ltac:(cbn [length]; nlia)) as (lk & E).
+    rewrite (bind_Ok _ _ _ _ _ E). cbn [snd negb].
+    unfold bind at 1, peek at 1, peekn at 1. cbn [peek_nth str_ops sc_in set_mark with_chars set_in upd si_chars nth].
+    assert (EA : (c =? 45) || is_alpha c = true).
+    { destruct Hc as [->|Hc]; [reflexivity | rewrite Hc; apply orb_true_r]. }
+    unfold chr in *. rewrite EA. unfold bind, mark, gets, fail.
+    cbn [sc_mark set_mark with_chars set_in upd s1 set_lws set_flags]. rewrite M0. reflexivity. }
+  destruct (match sc_ifms s with ImPossible :: _ => true | _ => false end).
+  - unfold bind at 1, modify at 1. apply (PRE (set_ifms (ImInside :: tl (sc_ifms s)) s) eq_refl eq_refl).
+  - unfold bind at 1, ret at 1. apply (PRE s eq_refl eq_refl).
+Qed.
+
+(* ================================================================================================ *)
+(* (11) text level: a fixed first part that leads the scanner into an error, then ANY continuation      *)
+(* ================================================================================================ *)
+(* if, for every continuation and every surplus of fuel, the token iterator run on [pre ++ rest] delivers [n] tokens and
+   then fails, every text that starts with [pre] is rejected *)
+Theorem text_prefix_rejected pre n e m :
+  (n < 20)%nat ->
+  (forall rest F', exists s, reach (2 * length pre + 10 + F') n (init_sc {| si_chars := pre ++ rest; si_look := 0 |}) s
+                             /\ next_token str_ops (2 * length pre + 10 + F') s = Err e m) ->
+  forall rest, snd (run_str (pre ++ rest)) <> PDone.
+Proof.
+  intros Hn H rest.
+  assert (HF : scan_fuel (pre ++ rest) = (2 * length pre + 10 + 2 * length rest)%nat).
+  { unfold scan_fuel. rewrite app_length. lia. }
+  destruct (H rest (2 * length rest)%nat) as (s & R & E). rewrite <- HF in R, E.
+  apply (reachable_scan_error_rejected (pre ++ rest) n s e m R); [lia | exact E].
+Qed.
+
+Ltac eval_exact :=
+  match goal with |- ?lhs = _ => let r := eval vm_compute in lhs in exact (@eq_refl _ r <: lhs = r) end.
+Tactic Notation "prefix_rejected" integer(n) :=
+  intros rest F'; cbn [length Nat.mul Nat.add app]; eexists; split; [ do n reach_step; apply reach_0 | eval_exact ].
+
+(* a flow collection closed by the bracket of the other kind, in each state of implicit_flow_mapping_states: directly behind
+   the opener, behind an entry, inside an implicit pair, inside an explicit "? key" pair, nested, as value of a block mapping
+   and as entry of a block sequence -- whatever follows the wrong closer *)
+Definition wrong_closer_prefixes : list (list N * N * marker) :=
+  [ ([91;125],                       48, {| m_index := 1; m_line := 1; m_col := 1 |});     (* [}        *)
+    ([123;93],                       47, {| m_index := 1; m_line := 1; m_col := 1 |});     (* {]        *)
+    ([91;32;97;32;125],              48, {| m_index := 4; m_line := 1; m_col := 4 |});     (* [ a }     *)
+    ([123;32;97;32;93],              47, {| m_index := 4; m_line := 1; m_col := 4 |});     (* { a ]     *)
+    ([91;32;97;58;32;98;32;125],     48, {| m_index := 7; m_line := 1; m_col := 7 |});     (* [ a: b }  *)
+    ([91;32;63;32;97;32;125],        48, {| m_index := 6; m_line := 1; m_col := 6 |});     (* [ ? a }   *)
+    ([91;32;58;32;125],              48, {| m_index := 4; m_line := 1; m_col := 4 |});     (* [ : }     *)
+    ([123;32;97;58;32;98;32;93],     47, {| m_index := 7; m_line := 1; m_col := 7 |});     (* { a: b ]  *)
+    ([91;32;91;32;97;32;125],        48, {| m_index := 6; m_line := 1; m_col := 6 |});     (* [ [ a }   *)
+    ([91;32;123;32;97;32;93],        47, {| m_index := 6; m_line := 1; m_col := 6 |});     (* [ { a ]   *)
+    ([91;97;44;32;98;125],           48, {| m_index := 5; m_line := 1; m_col := 5 |});     (* [a, b}    *)
+    ([123;97;58;32;49;93],           47, {| m_index := 5; m_line := 1; m_col := 5 |}) ].   (* {a: 1]    *)
+
+Lemma wrong_closer_prefix_scan_error :
+  Forall (fun p => forall rest F', exists s,
+            reach (2 * length (fst (fst p)) + 10 + F') 1 (init_sc {| si_chars := fst (fst p) ++ rest; si_look := 0 |}) s
+            /\ next_token str_ops (2 * length (fst (fst p)) + 10 + F') s = Err (snd (fst p)) (snd p)) wrong_closer_prefixes.
+Proof. repeat constructor; cbn [fst snd]; prefix_rejected 1. Qed.
+
+Theorem wrong_closer_text_rejected :
+  forall pre e m rest, In (pre, e, m) wrong_closer_prefixes -> snd (run_str (pre ++ rest)) <> PDone.
+Proof.
+  intros pre e m rest Hin.
+  pose proof (proj1 (Forall_forall _ _) wrong_closer_prefix_scan_error _ Hin) as H. cbn [fst snd] in H.
+  apply (text_prefix_rejected pre 1 e m); [lia | exact H].
+Qed.
+
+(* the same behind a block mapping key and behind a block sequence entry (the error arises in a later call of the iterator) *)
+Theorem wrong_closer_in_block_value_rejected tail :
+  snd (run_str ([107;58;32;91;32;97;32;125] ++ tail)) <> PDone            (* k: [ a }  *)
+  /\ snd (run_str ([45;32;123;32;97;32;93] ++ tail)) <> PDone.             (* - { a ]   *)
+Proof.
+  split.
+  - apply (text_prefix_rejected [107;58;32;91;32;97;32;125] 6 48 {| m_index := 7; m_line := 1; m_col := 7 |}); [lia|].
+    prefix_rejected 6.
+  - apply (text_prefix_rejected [45;32;123;32;97;32;93] 3 47 {| m_index := 6; m_line := 1; m_col := 6 |}); [lia|].
+    prefix_rejected 3.
+Qed.
+
+(* the same in one evaluation of the whole token iterator: if, for every continuation and every surplus of fuel, the scan
+   of [pre ++ rest] ends in the error, every text that starts with [pre] is rejected *)
+Theorem text_prefix_scan_error_rejected pre e m :
+  (forall rest F' G', snd (scan_all str_ops (2 * length pre + 10 + F') (4 * (2 * length pre + 10) + 20 + G')
+                             (init_sc {| si_chars := pre ++ rest; si_look := 0 |}) []) = SError e m) ->
+  forall rest, snd (run_str (pre ++ rest)) <> PDone.
+Proof.
+  intros H rest. apply scan_error_rejected. left. exists e, m. unfold scan_of.
+  assert (HF : scan_fuel (pre ++ rest) = (2 * length pre + 10 + 2 * length rest)%nat).
+  { unfold scan_fuel. rewrite app_length. lia. }
+  rewrite HF.
+  replace (4 * (2 * length pre + 10 + 2 * length rest) + 20)%nat
+    with (4 * (2 * length pre + 10) + 20 + 8 * length rest)%nat by lia.
+  apply H.
+Qed.
+
+(* /repo 99c201b at text level: 256 nested block sequences "- - - ... " or explicit keys "? ? ? ... " on one line, whatever
+   follows: "recursion limit exceeded" (site 46) where the 256th collection would start *)
+Definition dashes (n : nat) : list N := concat (repeat [45; 32] n).
+Definition question_marks (n : nat) : list N := concat (repeat [63; 32] n).
+
+Theorem deep_block_nesting_text_rejected rest :
+  snd (run_str (dashes 256 ++ rest)) <> PDone /\ snd (run_str (question_marks 256 ++ rest)) <> PDone.
+Proof.
+  split.
+  - apply (text_prefix_scan_error_rejected (dashes 256) 46 {| m_index := 511; m_line := 1; m_col := 511 |}).
+    intros rest0 F' G'. vm_compute. reflexivity.
+  - apply (text_prefix_scan_error_rejected (question_marks 256) 46 {| m_index := 510; m_line := 1; m_col := 510 |}).
+    intros rest0 F' G'. vm_compute. reflexivity.
+Qed.
+
+(* 255 levels are accepted: the limit does not reject too much *)
+Lemma block_nesting_255_accepted : snd (run_str (dashes 255 ++ [97; 10])) = PDone.
+Proof. vm_compute. reflexivity. Qed.
+
+(* ================================================================================================ *)
+(* (12) composition, one level down: a failing fetch in ANY round of the iterator's refill loop        *)
+(* ================================================================================================ *)
+(* [fetch_more_tokens] keeps fetching while the queue is empty or a possible key candidate waits at its head.  [need_more] is
+   its test (it runs stale_simple_keys), [rounds F n s s'] = n successful rounds lead from s to s' *)
+Definition need_more : @M strin bool :=
+  s <- get ;;
+  match sc_tokens s with
+  | [] => ret true
+  | _ => stale_simple_keys ;;;
+         s <- get ;;
+         ret (existsb (fun k => sk_possible k && (sk_token_number k =? sc_tokens_parsed s)) (sc_sks s))
+  end.
+
+Lemma fetch_more_tokens_unfold F f :
+  fetch_more_tokens str_ops F (S f)
+  = (need <- need_more ;; if need then fetch_next_token str_ops F ;;; fetch_more_tokens str_ops F f else modify (set_ta true)).
+Proof. reflexivity. Qed.
+
+Inductive rounds (F : nat) : nat -> sc strin -> sc strin -> Prop :=
+| rounds_0 s : rounds F 0 s s
+| rounds_S n s s1 s2 s3 :
+    need_more s = Ok (true, s1) -> fetch_next_token str_ops F s1 = Ok (tt, s2) -> rounds F n s2 s3 -> rounds F (S n) s s3.
+
+Lemma fetch_more_tokens_rounds F n s s' : rounds F n s s' ->
+  forall f, fetch_more_tokens str_ops F (n + f) s = fetch_more_tokens str_ops F f s'.
+Proof.
+  induction 1 as [s|n s s1 s2 s3 HN HFe HR IH]; intros f; [reflexivity|].
+  cbn [Nat.add]. rewrite fetch_more_tokens_unfold.
+  rewrite (bind_Ok _ _ _ _ _ HN). rewrite (bind_Ok _ _ _ _ _ HFe). apply IH.
+Qed.
+
+(* ANY state of the iterator (between two tokens): if after [n] rounds of refilling another round is needed and its fetch
+   fails, the call of the iterator fails with that error *)
+Theorem round_fetch_error_is_scan_error F n (s s' s1 : sc strin) e m :
+  sc_stream_end s = false -> sc_token_available s = false ->
+  rounds F n s s' -> need_more s' = Ok (true, s1) -> fetch_next_token str_ops F s1 = Err e m -> (n < F)%nat ->
+  next_token str_ops F s = Err e m.
+Proof.
+  intros HE HA HR HN HFe Hn. unfold next_token.
+  unfold bind at 1, get at 1. rewrite HE, HA. apply bind_Err.
+  replace F with (n + S (F - S n))%nat at 2 by lia.
+  rewrite (fetch_more_tokens_rounds F n s s' HR). rewrite fetch_more_tokens_unfold.
+  rewrite (bind_Ok _ _ _ _ _ HN). apply bind_Err. exact HFe.
+Qed.
+
+(* hence for texts: every state-level theorem about [fetch_next_token] rejects the whole text in which its situation
+   arises -- between two tokens or in the middle of a refill *)
+Corollary reachable_round_error_rejected l n k (s s' s1 : sc strin) e m :
+  reach (scan_fuel l) n (init_sc {| si_chars := l; si_look := 0 |}) s ->
+  (n < 4 * scan_fuel l + 20)%nat ->
+  sc_stream_end s = false -> sc_token_available s = false ->
+  rounds (scan_fuel l) k s s' -> (k < scan_fuel l)%nat ->
+  need_more s' = Ok (true, s1) -> fetch_next_token str_ops (scan_fuel l) s1 = Err e m ->
+  snd (run_str l) <> PDone.
+Proof.
+  intros HR Hn HE HA HRo Hk HN HFe. apply (reachable_scan_error_rejected l n s e m HR Hn).
+  exact (round_fetch_error_is_scan_error _ k s s' s1 e m HE HA HRo HN HFe Hk).
 Qed.
